@@ -302,7 +302,7 @@ bool vf_configure(Ctx &c) { g_errno_repoison = 1;
 
 // decodes one routine check from the choice source; the returned job performs it (on any thread)
 Job gen_job(Src &s, Ctx &c, bool *nt, const char **tag) {
-    static const char A_TRIM[] = " \t\r\nab\x80", A_TXT[] = "abAB,|: \"'Xx\n\r\t\x80z", A_REP[] = "abaXbaa";
+    static const char A_TRIM[] = " \t\r\nab\x80\f\v\x08\x0e\x1f!\xa0\x85",   /* the four blanks, text, and the bytes next to / easily mistaken for blanks (FF, VT, BS, SO, US, NBSP, NEL) */ A_TXT[] = "abAB,|: \"'Xx\n\r\t\x80z", A_REP[] = "abaXbaa";
     int tgt = (int)s.pick({3, 2, 4, 4, 2, 2, 4, 4, 1, 1, 1, 1, 1, 1, 1, 1});
     switch (tgt) {
         case 9: {
@@ -323,7 +323,7 @@ Job gen_job(Src &s, Ctx &c, bool *nt, const char **tag) {
             c.op("is_email(%s)", hexs(x).c_str()); *nt = x.find('@') != std::string::npos; *tag = "is_email"; return [x](Ctx &k) { chk_email(k, x); }; }
         case 14: { bool ns = s.chance(1, 4); std::string x = gen_str(s, "seed-0", 6, 300); c.op("unique(seed of %zu bytes%s)", x.size(), ns ? ", NULL" : ""); *nt = !ns && x.size() > 100; *tag = "unique"; return [x, ns](Ctx &k) { chk_unique(k, x, ns); }; }
         case 15: { std::string x = gen_str(s, "ab \xe9\xff\x80z", 7, 200); static const float mags[] = {1.0f, 1.5f, 2.0f, 3.0f}; float m = mags[s.range(0, 3)]; c.op("conv_encoding(%s, latin1->utf8, mag %.1f)", hexs(x, 24).c_str(), (double)m); bool hi = false; for (unsigned char ch : x) if (ch >= 0x80) hi = true; *nt = hi; *tag = "conv_encoding"; return [x, m](Ctx &k) { chk_conv(k, x, m); }; }
-        case 0: { std::string x = gen_str(s, A_TRIM, 7, 60); c.op("trim family on %s", hexs(x).c_str()); *nt = !x.empty() && (blank(x.front()) || blank(x.back())); *tag = "trim"; return [x](Ctx &k) { chk_trim(k, x); }; }
+        case 0: { std::string x = gen_str(s, A_TRIM, 15, 60); c.op("trim family on %s", hexs(x).c_str()); *nt = !x.empty() && (blank(x.front()) || blank(x.back())); *tag = "trim"; return [x](Ctx &k) { chk_trim(k, x); }; }
         case 1: { std::string x = gen_str(s, "\"'ab[]", 6, 30); char h = "\"'[a"[s.range(0, 3)], t = "\"']a"[s.range(0, 3)]; c.op("unchar(%s,%c,%c)", hexs(x).c_str(), h, t); *nt = x.size() >= 2 && x.front() == h && x.back() == t; *tag = "unchar"; return [x, h, t](Ctx &k) { chk_unchar(k, x, h, t); }; }
         case 2: {
             char method = s.boolean() ? 't' : 's';
@@ -393,7 +393,7 @@ bool vf_enumerate(Ctx &c, EnumStats &st) {
     int L = c.tier ? 6 : 5;
     uint64_t idx = 0;
     auto mine = [&]() { return (int)(idx++ % (uint64_t)nshards) == shard; };
-    all_strings(" \t\r\na\x80", 6, L, [&](const std::string &x) { if (!mine()) return; c.trace = "enumerated: trim " + hexs(x); chk_trim(c, x); chk_revcase(c, x); st.evaluations++; if (!x.empty()) st.nontrivial++; });
+    all_strings(" \t\r\na\x80\f\v", 8, L, [&](const std::string &x) { if (!mine()) return; c.trace = "enumerated: trim " + hexs(x); chk_trim(c, x); chk_revcase(c, x); st.evaluations++; if (!x.empty()) st.nontrivial++; });
     all_strings("\"'a", 3, L + 1, [&](const std::string &x) { if (!mine()) return; c.trace = "enumerated: unchar " + hexs(x); chk_unchar(c, x, '"', '"'); chk_unchar(c, x, '\'', '"'); st.evaluations++; if (x.size() >= 2) st.nontrivial++; });
     static const char *toks[] = {"a", "ab", "aa", "b", "aba"}; static const char *words[] = {"", "a", "XY", "aba", "b"};
     all_strings("abX", 3, L, [&](const std::string &x) { if (!mine()) return; for (auto t : toks) for (auto w : words) { c.trace = "enumerated: replace " + hexs(x) + " " + t + " -> " + w; chk_replace(c, x, t, w, 's'); chk_replace(c, x, t, w, 't'); st.evaluations++; st.nontrivial++; } });
@@ -428,7 +428,7 @@ bool vf_enumerate(Ctx &c, EnumStats &st) {
     st.states = st.evaluations;
     st.extra["max_length"] = (uint64_t)L;
     st.extra["routine_checks"] = g_checked.load();
-    st.samples.push_back("all strings of length <= L over {' ',\\t,\\r,\\n,a,0x80} through trim/trim_head/trim_tail/rev/upper/lower");
+    st.samples.push_back("all strings of length <= L over {' ',\\t,\\r,\\n,a,0x80,\\f,\\v} through trim/trim_head/trim_tail/rev/upper/lower");
     st.samples.push_back("all strings over {a,b,X} x search {a,ab,aa,b,aba} x replacement {'',a,XY,aba,b} x modes tn/tr/sn/sr");
     st.samples.push_back("all strings over {a,b,',','|',' '} through qstrtok/qstrtokenizer; over {a,\\n,\\r} through qstrgets with sizes 2..5 and 64");
     st.samples.push_back("all strings of length <= L+2 over {0,1,2,5,'.',a} through qstr_is_ip4addr and over {a,@,'.',-,!} through qstr_is_email; every integer within a band of 0, +-10^k and +-2^k through qstr_comma_number");
